@@ -337,7 +337,10 @@ func wedgeFinding(p *sut.Proc, t Trial, what string) *check.Finding {
 			return finding(t, "liveness/wedged", "%s; goroutines parked in hagall code across two dumps:\n%s", what, strings.Join(stuck, "\n---\n"))
 		}
 	}
-	f := finding(t, "liveness/no-progress", "%s (no parked hagall goroutine identified)", what)
+	// three-valued: without a goroutine parked (or spinning) in hagall code across
+	// the two dumps there is no witness of a wedge - inconclusive, not a violation
+	f := finding(t, "inconclusive", "%s (no hagall goroutine parked or spinning at the same place across two dumps)", what)
+	f.Props = nil
 	return f
 }
 
